@@ -74,7 +74,7 @@ def check_universe(universe: str, rep: core.Report):
     nops = len(uni['ops'])
     r = core.rng('c09' + universe)
     if core.tier() == 'quick':
-        nstates = min(len(paths), 1500)
+        nstates = min(len(paths), 500)
         chosen = r.sample(paths, nstates)
         nwalks = 320
     else:
@@ -123,6 +123,29 @@ def check_universe(universe: str, rep: core.Report):
         rep.samples.append({'universe': universe, 'call': json.loads(k[1]), 'post': json.loads(k[2])})
 
 
+def replay(path: str, rep: core.Report) -> int:
+    """Re-execute a recorded stimulus on the current tree and let TLC judge every step again."""
+    from . import container_exec as ce
+    v = json.load(open(path))
+    st = v['stimulus']
+    universe = st['universe']
+    uni, _, _ = generate(universe, rep)
+    core.setup_env()
+    calls = st['calls_before'] + st['then']
+    triples = ce.run_history(uni, calls, log_from=0)
+    recs = [{'tid': i + 1, 'pre': json.loads(a), 'call': json.loads(b), 'post': json.loads(c)}
+            for i, (a, b, c) in enumerate(triples)]
+    verdicts, _ = core.validate('TraceC09_' + universe, 'TraceC09_' + universe + '.cfg', recs)
+    bad = [(i, verdicts[i + 1]) for i in range(len(recs)) if verdicts[i + 1] not in ('', 'out-of-domain')]
+    for i, cl in bad:
+        print('step %d %s: failing clause %s' % (i + 1, json.dumps(recs[i]['call']), cl))
+    if bad:
+        print('VIOLATION property=C09 replay=%s' % path)
+        return 1
+    print('replay: every step is a step of Container.tla on the current tree')
+    return 0
+
+
 def main(argv: List[str]) -> int:
     rep = core.Report('C09', 'TLC exhaustive reachability of Container.tla + per-transition replay on real objects, '
                              'TLC trace validation of (pre, call, post) triples')
@@ -131,6 +154,8 @@ def main(argv: List[str]) -> int:
                 'call mutates the container or is rejected')
     rep.assumptions = ['projection and universe builder in pv/container_exec.py are trusted',
                        'structural equality is modelled by Eq* in Container.tla as transcribed from SQLObject.__eq__']
+    if '--replay' in argv:
+        return replay(argv[argv.index('--replay') + 1], rep)
     only = [a for a in argv if a in UNIVERSES] or UNIVERSES
     for u in only:
         check_universe(u, rep)
